@@ -8,7 +8,7 @@
    second group gives the fuel bound. *)
 From PV Require Import Base.Prelude Spec.LuaLex Instances.HoldsC01 Generated.T_files_build Model.ReqEmbed
   Model.ReqEmbedInst Proofs.ReqEmbedProofs Proofs.ReqEmbedInstProofs Proofs.SpecLexChunk Proofs.ReqEmbedSpecTokens
-  Instances.HoldsC06.
+  Instances.HoldsC06 Proofs.LexerChunk Proofs.ReqEmbedEchoGood.
 
 Section Abstract.
 Variable P : Type.
@@ -150,12 +150,12 @@ Proof. exact (build_fuel P parse_lines echo strip walk file_lines check_name fin
    (hence _partial); what is NOT covered even relative to the hypotheses is the link between the
    echoed code of a stripped package and the package's tokens minus its game loop functions - that
    clause is checked on every run by the monitor holds_C14. *)
-Theorem C14_tokens_partial : forall (T : Type) (sigt : bytes -> option (list T)),
+Theorem C14_tokens_partial : forall (T : Type) (sigt : bytes -> option (list T)) (good : list bytes -> Prop),
   (forall a b ta tb, ends_with_nl a = true -> sigt a = Some ta -> sigt b = Some tb ->
                      sigt (a ++ b) = Some (ta ++ tb)) ->
   (forall a ta, sigt a = Some ta -> sigt (a ++ [10]) = Some ta) ->
   sigt [] = Some [] ->
-  (forall ls q t, parse_lines ls = Ok q -> sigt (concat ls) = Some t -> sigt (concat (echo q)) = Some t) ->
+  (forall ls q t, good ls -> parse_lines ls = Ok q -> sigt (concat ls) = Some t -> sigt (concat (echo q)) = Some t) ->
   (forall c, concat (file_lines c) = c) ->
   nl_line = [10] ->
   (forall n, ends_with_nl (header_line n) = true) ->
@@ -170,6 +170,9 @@ Theorem C14_tokens_partial : forall (T : Type) (sigt : bytes -> option (list T))
     (Forall lexes preamble_package -> Forall lexes preamble_require -> lexes end_line ->
      Forall (fun e => lexes (header_line (fst e)) /\ lexes (concat (echo (snd e)))) pk ->
      lexes main_content ->
+     good (file_lines main_content) ->
+     (forall m, parse_lines (file_lines main_content) = Ok m ->
+                good (prepend_lines P echo preamble_package preamble_require header_line end_line nl_line m pk)) ->
      sigt out = Some match pk with
                      | [] => toks main_content
                      | _ => concat (map toks preamble_package)
@@ -177,28 +180,32 @@ Theorem C14_tokens_partial : forall (T : Type) (sigt : bytes -> option (list T))
                                                      ++ toks end_line) pk)
                             ++ concat (map toks preamble_require) ++ toks main_content
                      end).
-Proof. exact (build_code_tokens P parse_lines echo strip walk file_lines check_name find
-                                preamble_package preamble_require header_line end_line nl_line). Qed.
+Proof.
+  exact (fun T sigt good H1 H2 H3 =>
+    build_code_tokens P parse_lines echo strip walk file_lines check_name find
+      preamble_package preamble_require header_line end_line nl_line T sigt H1 H2 H3 good).
+Qed.
 
 (* ... and, relative to one more hypothesis - the stripping step acts on significant tokens as a
    function [sstrip] does (for the concrete stack: as Spec/RequireSpec.spec_strip, the removal of the
    top-level game loop function definitions) - every embedded package's tokens are its file's tokens,
    minus only what [sstrip] removes unless {use_game_loop=true} was in force when it was loaded *)
-Theorem C14_block_tokens_partial : forall (T : Type) (sigt : bytes -> option (list T)) (sstrip : list T -> list T),
-  (forall ls q t, parse_lines ls = Ok q -> sigt (concat ls) = Some t -> sigt (concat (echo q)) = Some t) ->
+Theorem C14_block_tokens_partial : forall (T : Type) (sigt : bytes -> option (list T)) (good : list bytes -> Prop)
+    (sstrip : list T -> list T),
+  (forall ls q t, good ls -> parse_lines ls = Ok q -> sigt (concat ls) = Some t -> sigt (concat (echo q)) = Some t) ->
   (forall c, concat (file_lines c) = c) ->
   (forall q q', strip q = Ok q' -> sigt (concat (echo q')) = option_map sstrip (sigt (concat (echo q)))) ->
   forall fuel main_path main_content r pk,
   build_lua fuel main_path main_content = Ok (r, pk) ->
   Forall (fun e => exists rpath (gl : bool) qpath content, find rpath (fst e) = Some (qpath, content) /\
-            (lexes T sigt content ->
+            (lexes T sigt content -> good (file_lines content) ->
              lexes T sigt (concat (echo (snd e))) /\
              toks T sigt (concat (echo (snd e))) =
                if gl then toks T sigt content else sstrip (toks T sigt content))) pk.
 Proof.
-  exact (fun T sigt sstrip He Hf Hs =>
+  exact (fun T sigt good sstrip He Hf Hs =>
     build_block_tokens P parse_lines echo strip walk file_lines check_name find
-      preamble_package preamble_require header_line end_line nl_line T sigt He Hf sstrip Hs).
+      preamble_package preamble_require header_line end_line nl_line T sigt good He Hf sstrip Hs).
 Qed.
 End Abstract.
 
@@ -215,12 +222,13 @@ Proof. exact build_fuel_now. Qed.
 (* the token-level statement for the concrete stack: the constants' side conditions and the loss-free
    file iteration are discharged; what remains assumed concerns the lexer stack only - the chunking
    property of the reference tokenizer and the faithful echo of the lexer model (C07 / C06) *)
-Theorem C14_tokens_partial_now : forall (T : Type) (sigt : bytes -> option (list T)),
+Theorem C14_tokens_partial_now : forall (T : Type) (sigt : bytes -> option (list T)) (good : list bytes -> Prop),
   (forall a b ta tb, ends_with_nl a = true -> sigt a = Some ta -> sigt b = Some tb ->
                      sigt (a ++ b) = Some (ta ++ tb)) ->
   (forall a ta, sigt a = Some ta -> sigt (a ++ [10]) = Some ta) ->
   sigt [] = Some [] ->
-  (forall ls q t, from_lines ls = Ok q -> sigt (concat ls) = Some t -> sigt (concat (echo_lines q)) = Some t) ->
+  (forall ls q t, good ls -> from_lines ls = Ok q -> sigt (concat ls) = Some t ->
+                  sigt (concat (echo_lines q)) = Some t) ->
   forall cwd fs lua_path fuel main_path main_content out,
   build_code_now cwd fs lua_path fuel main_path main_content = Ok out ->
   exists r pk, build_lua_now cwd fs lua_path fuel main_path main_content = Ok (r, pk) /\
@@ -230,6 +238,10 @@ Theorem C14_tokens_partial_now : forall (T : Type) (sigt : bytes -> option (list
      lexes end_line_now ->
      Forall (fun e => lexes (header_line_now (fst e)) /\ lexes (concat (echo_lines (snd e)))) pk ->
      lexes main_content ->
+     good (file_lines main_content) ->
+     (forall m, from_lines (file_lines main_content) = Ok m ->
+                good (prepend_lines lua echo_lines require_lua_preamble_package require_lua_preamble_require
+                                    header_line_now end_line_now nl_line_now m pk)) ->
      sigt out = Some match pk with
                      | [] => toks main_content
                      | _ => concat (map toks require_lua_preamble_package)
@@ -250,27 +262,6 @@ Proof. exact sig_views_app. Qed.
 Theorem C14_reference_final_lf : forall a ta, sig_views a = Some ta -> sig_views (a ++ [10]) = Some ta.
 Proof. exact sig_views_final_lf. Qed.
 
-(* hence the token-level statement for the concrete stack against the reference tokenizer, with the
-   constants' side conditions computed: the only remaining hypothesis is the token-faithful echo of
-   the lexer model (C06) - and, per package, that its header line and echoed code are in the dialect *)
-Theorem C14_tokens_spec_partial :
-  (forall ls q t, from_lines ls = Ok q -> sig_views (concat ls) = Some t -> sig_views (concat (echo_lines q)) = Some t) ->
-  forall cwd fs lua_path fuel main_path main_content out,
-  build_code_now cwd fs lua_path fuel main_path main_content = Ok out ->
-  exists r pk, build_lua_now cwd fs lua_path fuel main_path main_content = Ok (r, pk) /\
-    let toks := toks (Z * list Z * Z * Z * Z) sig_views in
-    let lexes := lexes (Z * list Z * Z * Z * Z) sig_views in
-    (Forall (fun e => lexes (header_line_now (fst e)) /\ lexes (concat (echo_lines (snd e)))) pk ->
-     lexes main_content ->
-     sig_views out = Some match pk with
-                          | [] => toks main_content
-                          | _ => concat (map toks require_lua_preamble_package)
-                                 ++ concat (map (fun e => toks (header_line_now (fst e))
-                                                          ++ toks (concat (echo_lines (snd e))) ++ toks end_line_now) pk)
-                                 ++ concat (map toks require_lua_preamble_require) ++ toks main_content
-                          end).
-Proof. exact build_code_tokens_spec. Qed.
-
 (* C06's predicate is enough: if holds_C06 (source, echoed text) and the echoed text has no lone
    carriage return, the echoed text is in the dialect whenever the source is, with the same
    significant token views (Proofs/SpecLexChunk.v: step_ctx - a token is read the same way in front
@@ -279,18 +270,36 @@ Theorem C14_echo_predicate_suffices : forall src out t,
   holds_C06 src out = true -> crlf_only out = true -> sig_views src = Some t -> sig_views out = Some t.
 Proof. exact holds_C06_sig_views. Qed.
 
-(* so the token-level clause, with its remaining hypothesis in the form C06 proves of the lexer model *)
-Theorem C14_tokens_spec_partial_c06 :
-  (forall ls q, from_lines ls = Ok q -> holds_C06 (concat ls) (concat (echo_lines q)) = true) ->
-  (forall ls q t, from_lines ls = Ok q -> sig_views (concat ls) = Some t ->
-                  crlf_only (concat (echo_lines q)) = true) ->
+(* ... which, with C06's theorems about the lexer model (model_holds_C06, echo_crlf_only,
+   model_lex_chunking), gives the token-faithful echo of the concrete stack on line lists whose lines
+   (all but the last) end in a line feed and consist of bytes *)
+Theorem C14_echo_views : forall ls q t,
+  Forall ends_lf (removelast ls) /\ Forall byte (concat ls) ->
+  from_lines ls = Ok q -> sig_views (concat ls) = Some t -> sig_views (concat (echo_lines q)) = Some t.
+Proof. exact echo_views. Qed.
+
+(* the echo of a text of the dialect given as lines ending in LF is again such a line list, of bytes *)
+Theorem C14_echo_lines_good : forall ls ts,
+  good_lines ls -> spec_lex (concat ls) <> None -> Model.Lexer.model_lex ls = Ok ts ->
+  good_lines (echo_toks ts [] false).
+Proof. exact dialect_echo_good. Qed.
+
+(* THE token-level clause for the concrete stack against the reference tokenizer, without any hypothesis
+   about the lexer, the chunking, the echo or the constants.  For a main program of bytes in the dialect
+   and a package table each of whose entries e satisfies
+     - its header line  package._c["name"]=function()  is made of bytes and is in the dialect,
+     - its echoed code is in the dialect,
+     - [pkg_shape e]: the lines of its echoed code are bytes, end in LF, including the last one,
+   the significant tokens of the cart's code are: the package preamble, then per table entry header +
+   echoed package + `end`, then the require() preamble, then the main program's tokens, unchanged. *)
+Theorem C14_tokens_spec :
   forall cwd fs lua_path fuel main_path main_content out,
   build_code_now cwd fs lua_path fuel main_path main_content = Ok out ->
   exists r pk, build_lua_now cwd fs lua_path fuel main_path main_content = Ok (r, pk) /\
     let toks := toks (Z * list Z * Z * Z * Z) sig_views in
     let lexes := lexes (Z * list Z * Z * Z * Z) sig_views in
-    (Forall (fun e => lexes (header_line_now (fst e)) /\ lexes (concat (echo_lines (snd e)))) pk ->
-     lexes main_content ->
+    (lexes main_content -> Forall byte main_content ->
+     Forall (fun e => lexes (header_line_now (fst e)) /\ lexes (concat (echo_lines (snd e))) /\ pkg_shape e) pk ->
      sig_views out = Some match pk with
                           | [] => toks main_content
                           | _ => concat (map toks require_lua_preamble_package)
@@ -298,7 +307,28 @@ Theorem C14_tokens_spec_partial_c06 :
                                                           ++ toks (concat (echo_lines (snd e))) ++ toks end_line_now) pk)
                                  ++ concat (map toks require_lua_preamble_require) ++ toks main_content
                           end).
-Proof. exact build_code_tokens_spec_c06. Qed.
+Proof. exact build_code_tokens_full. Qed.
+
+(* the per-entry conditions are THEOREMS for a package embedded with its game loop ({use_game_loop=true}:
+   its object is the lexed + parsed file) whose file is made of bytes, is in the dialect and is empty or
+   ends in a newline - and its echoed code then has exactly the file's tokens.
+   RESIDUAL (why the clause as a whole stays partial; both are checked on every run by holds_C14):
+   (1) a package whose file does not end in a newline (build.py then adds a separate one-byte newline
+       line; the lexer stack's chunking theorem does not cover a line without LF followed by that line);
+   (2) a package embedded WITHOUT its game loop (the default): its object is the re-lexed echo of the token
+       list with the game loop functions taken out; that this text is in the dialect, ends in a newline and
+       has the file's tokens minus the top-level game loop definitions (Spec/RequireSpec.spec_strip) is not
+       proved (it needs the parser's statement ranges to agree with the reference description);
+       C14_block_tokens_partial states it relative to that hypothesis, C14_strip_only_removes proves that
+       stripping only removes tokens. *)
+Theorem C14_pkg_conditions_unstripped : forall c q,
+  Forall byte c -> lexes (Z * list Z * Z * Z * Z) sig_views c -> (c = [] \/ ends_lf c) ->
+  from_lines (file_lines c) = Ok q ->
+  lexes (Z * list Z * Z * Z * Z) sig_views (concat (echo_lines q)) /\
+  toks (Z * list Z * Z * Z * Z) sig_views (concat (echo_lines q)) = toks (Z * list Z * Z * Z * Z) sig_views c /\
+  good_lines (echo_lines q) /\
+  (echo_lines q = [] \/ ends_lf (last (echo_lines q) [])).
+Proof. exact unstripped_pkg_ok. Qed.
 
 (* the stripping step of the concrete model, before the text is lexed again: whatever statements of
    the tree are taken for game loop functions and wherever their token ranges lie, the significant
@@ -325,9 +355,11 @@ Print Assumptions C14_tokens_partial_now.
 Print Assumptions C14_strip_only_removes.
 Print Assumptions C14_reference_chunking.
 Print Assumptions C14_reference_final_lf.
-Print Assumptions C14_tokens_spec_partial.
+Print Assumptions C14_echo_lines_good.
+Print Assumptions C14_tokens_spec.
+Print Assumptions C14_pkg_conditions_unstripped.
 Print Assumptions C14_echo_predicate_suffices.
-Print Assumptions C14_tokens_spec_partial_c06.
+Print Assumptions C14_echo_views.
 
 (* non-vacuity: a main program and two packages that require each other (a cycle), one game loop
    function each, one package without a final newline; the build succeeds, embeds each package once
